@@ -311,7 +311,7 @@ def items(tier: str, seed: int) -> List[Dict[str, Any]]:
                                 "label": f"layout_independence[{g},K=4,{first},{second}+2]"})
         # ... and five permuted nodes at length 3
         for g in ("leaves5", "deep5"):
-            for first in ("GO", "LEAVE", "BACK", "RE"):
+            for first in ("LEAVE", "BACK"):
                 out.append({"ob": "layout_independence", "params": {"group": GROUPS[g], "prefix": [first], "L": 3}, "timeout": 1300,
                             "label": f"layout_independence[{g},K=5,{first}+2]"})
     for lo in range(0, 16 if quick else 64, 4):
